@@ -665,7 +665,7 @@ def run(prog, rep, tier):
             stored = [a for a in Sc.select("attrstore", qname=fc.qname) if a.attr == name and selects(a.value)]
             ok = ok and len(stored) == 1
             why = "low=%s high=%s size=%s generator=%s" % (fmt(slots.get("low", ())), fmt(slots.get("high", ())), fmt(slots.get("size", ())), fmt(c.recv))
-        if not ok and len(us) == 1 and not all(plain_term(slots.get(k_)) for k_ in ("low", "high", "size")):
+        if not ok and len(us) == 1 and not (all(plain_term(slots.get(k_)) for k_ in ("low", "high")) and (slots.get("size") == pterm or plain_term(slots.get("size")))):
             rep.unk("RANGE.uniform", fwhere(fc, us[0].node, construct="self.%s: %s" % (name, head(us[0].node)[:120])),
                     "how the range of %s reaches rng.uniform is not written over %s[0] / %s[1] themselves (%s): not read" % (name, name, name, why[:120]))
             continue
